@@ -1,5 +1,8 @@
 (** C01: the generated parser recognises exactly the grammar's PEG language. *)
-From PegV Require Import Base.Tac Spec.Syntax Spec.Peg Spec.WF Model.Machine Model.Gen Proofs.Top Properties.Example.
+From PegV Require Import Base.Tac Spec.Syntax Spec.Peg Spec.WF Model.Machine Model.Gen Model.Analyses Model.Emit Model.SEmit Model.Exec
+  Proofs.Top Proofs.SEmitSound Proofs.SEmitFile Properties.Example Generated.PegPeg.
+From Coq Require Import Lia.
+Local Open Scope nat_scope.
 
 (** For every grammar the default generator handles (no switch nodes, literals are code points),
     every rune list, every rule used as entry whose slot holds a function, every memo / inline
@@ -44,3 +47,52 @@ Example C01_nonvacuous :
   verdict_of (spec_of ex_in_bad 0) = Some None /\
   verdict_of (spec_of ex_in_ok 1) = Some (Some 2).
 Proof. vm_compute. repeat split; reflexivity. Qed.
+
+(** ** the statements of the generated file
+
+    Model/SEmit.v writes, for every rule that gets a function, the statements the generator's templates write
+    (position++, the character tests with their goto, the saves and restores of position / tokenIndex, add,
+    memoize, the calls of other rule functions, blocks with break, switch with its clauses); Model/Exec.v gives
+    them the meaning Go gives them: a goto leaves the blocks it stands in until it finds its label, break leaves
+    one block, return leaves the function.  [forget] maps the statements onto the skeleton the correspondence
+    check reads back from every generated file. *)
+
+(** the statements refine the skeleton: forgetting which statement is which gives Model/Emit.v's file *)
+Theorem C01_statements_refine_skeleton :
+  forall g ptx ast inline asu undef,
+    map (option_map forget) (semit_all g ptx ast inline asu undef) = emit_all g ast inline asu undef.
+Proof. exact forget_semit_all. Qed.
+Print Assumptions C01_statements_refine_skeleton.
+
+(** every rule function of the file, called in any state, returns what the machine's rule function returns:
+    same verdict, position, tokens, memo table, text register; it crashes only where the machine says so *)
+Theorem C01_rule_functions_are_the_machine :
+  forall g ptx ast memo inline asu buf penv, deep_table_b g ast memo inline asu = true ->
+  forall n r m res,
+    o_inline (emit_opts g ast memo inline asu) r = false -> reached (count_rules g) r = true ->
+    (exists b, nth_error g r = Some b /\ b <> RNil) ->
+    rule_fn g (emit_opts g ast memo inline asu) (run_f g ptx buf penv (emit_opts g ast memo inline asu) n) r m = Some res ->
+    xcall buf penv (emit_opts g ast memo inline asu) (emitted_fn g ptx ast inline asu) r m res.
+Proof. exact emitted_file_sound. Qed.
+Print Assumptions C01_rule_functions_are_the_machine.
+
+(** ... and with the machine theorem above: the generated statements compute the PEG semantics *)
+Theorem C01_generated_code_is_peg :
+  forall g ptx buf penv, good_grammar g -> good_buf buf -> good_switches g ->
+  forall memo inline n r st0 rr,
+    gen_deep_b g inline = true -> slot_ok g inline r -> reached (count_rules g) r = true ->
+    peg_parse g ptx buf penv (S n) r = Some rr ->
+    exists res, xcall buf penv (mk_opts true memo inline g) (gen_fn g ptx inline) r (reset st0) res /\
+      match rr with
+      | (Succ p f, _) => exists st', res = Ret true st' /\ pos st' = p /\ live st' = Syntax.flat f
+      | (Fail, evs) => exists st', res = Ret false st' /\ maxtok st' = first_furthest evs
+      end.
+Proof. exact generated_code_is_peg. Qed.
+Print Assumptions C01_generated_code_is_peg.
+
+(** non-vacuity: the side condition holds for the example grammar under both settings and for the grammar
+    peg's own front end is generated from (-inline -switch), and the first rule of the example has a function of more than four statements *)
+Example C01_code_nonvacuous :
+  gen_deep_b ex_g false = true /\ gen_deep_b ex_g true = true /\ gen_deep_b pegpeg_is true = true /\
+  match gen_fn ex_g ex_ptx true 0 with Some body => Nat.ltb 4 (length body) | None => false end = true.
+Proof. split; [vm_compute; reflexivity|]. split; [vm_compute; reflexivity|]. split; vm_compute; reflexivity. Qed.
